@@ -198,8 +198,18 @@ Definition queries (U : list string) : list query :=
   flat_map queries_for U ++ [QKeys] ++ map QWith with_kinds.
 
 (* t0, universe, steps: operation, its flag (load / reload only), and the answers to the query set
-   put after it.  None = "the same answer as after the previous step" (keeps the files small). *)
-Definition cstep := (op * list answer * list (option answer))%type.
+   put after it, run-length coded.  None = "the same answer as after the previous step". *)
+Definition cstep := (op * list answer * list (nat * option answer))%type.
+(* run-length coding of the answer lists, and names for the frequent entries (keeps the case files small) *)
+Definition unrle {A} (l : list (nat * A)) : list A := flat_map (fun p => repeat (snd p) (fst p)) l.
+Definition oS : option answer := None.            (* same as after the previous step *)
+Definition oU := Some AUnknown.
+Definition oK := Some AKeyErr.
+Definition oX := Some AUnsupported.
+Definition oN := Some ANone.
+Definition oR := Some ARaise.
+Definition oT0 := Some (ACats []).
+Definition oG0 := Some (AReg None None []).
 Definition case := (Z * list string * list cstep)%type.
 
 Definition expand (U : list string) (steps : list cstep) : list op :=
@@ -215,12 +225,12 @@ Fixpoint resolve (prev : list answer) (qs : list (option answer)) : list answer 
 Fixpoint unfold_obs (prev : list answer) (steps : list cstep) : list answer :=
   match steps with
   | [] => []
-  | (_, fl, qs) :: r => let cur := resolve prev qs in fl ++ cur ++ unfold_obs cur r
+  | (_, fl, qs) :: r => let cur := resolve prev (unrle qs) in fl ++ cur ++ unfold_obs cur r
   end.
 
 Definition observed (c : case) : list answer := unfold_obs [] (snd c).
 Definition history (c : case) : list op := expand (snd (fst c)) (snd c).
-Definition model_out (c : case) : list answer := run (init (fst (fst c))) (history c).
+Definition model_out (c : case) : list answer := run cur (init (fst (fst c))) (history c).
 
 Definition agrees (c : case) : bool := answers_eqb (model_out c) (observed c).
 (* the property, evaluated on what the IMPLEMENTATION answered *)
@@ -231,8 +241,12 @@ Definition holds (c : case) : bool := Nat.eqb (verdict c) 0.
      2 with_descriptor() returned a later source's descriptor (dict.update: last wins)
      3 an unsigned document was served although a verification certificate is configured
      4 an MDQ source shows what a failed fetch parsed (unverified / foreign entity)
-     5 a malformed / badly signed MDQ answer escapes as an exception: later sources are not consulted *)
-Definition cls (c : case) : nat := let v := verdict c in if Nat.leb v 5 then v else 0.
+     5 a malformed / badly signed MDQ answer escapes as an exception: later sources are not consulted
+     6 an inline source given as list-style item (text, cert) is never verified
+     7 an EntitiesDescriptor MDQ answer that is expired / lacks a required attribute escapes as TooOld / MustValueError
+   All seven are repaired in /repo (status "fixed"): they are still recognised, so that a regression is
+   reported with its class. *)
+Definition cls (c : case) : nat := let v := verdict c in if Nat.leb v 7 then v else 0.
 Definition run := run_cases agrees holds cls.
 
 (* debugging: first position where model and implementation differ *)
